@@ -14,13 +14,15 @@ L == V(2)
 Conj2(a, b) == C(",", <<a, b>>)
 Upd == { C("assertz", <<P(I(7))>>), C("asserta", <<P(I(7))>>), C("retract", <<P(I(2))>>), C("once", <<C("retract", <<P(V(3))>>)>>),
          C("retract", <<P(X)>>), C("retractall", <<P(I(2))>>), C("retract", <<P(I(3))>>), A("true"),       \* p(3) is the last clause
-         C("retract", <<C(":-", <<P(I(4)), V(4)>>)>>), C("retractall", <<P(I(4))>>) }                       \* p(4) :- w(4) is a rule
+         C("retract", <<C(":-", <<P(I(4)), V(4)>>)>>), C("retractall", <<P(I(4))>>),                        \* p(4) :- w(4) is a rule
+         C("retract", <<C(":-", <<P(I(0)), V(4)>>)>>) }                                                      \* the first clause, a rule with a disjunctive body
 \* two updates in one iteration (e.g. remove the last clause, then append a new one)
 Upd2 == { Conj2(u1, u2) : u1 \in Upd \ {A("true")}, u2 \in Upd \ {A("true")} }
 Plain == { C("assertz", <<P(I(8))>>), C("asserta", <<P(I(0))>>), C("assertz", <<P(V(3))>>), C("retract", <<P(I(2))>>), C("retract", <<P(V(3))>>),
            C("retract", <<C(":-", <<P(V(3)), V(4)>>)>>), C("retractall", <<P(V(3))>>), C("retractall", <<P(I(2))>>), C("abolish", <<C("/", <<A("p"), I(1)>>)>>),
            C("retract", <<C(":-", <<P(I(4)), V(4)>>)>>), C("retract", <<P(I(4))>>), C("retractall", <<P(I(4))>>), C("retractall", <<P(C("f", <<I(1)>>))>>),
-           C("assertz", <<C(":-", <<P(I(5)), C("w", <<I(5)>>)>>)>>), C("asserta", <<C(":-", <<P(V(3)), C("w", <<V(3)>>)>>)>>) }
+           C("assertz", <<C(":-", <<P(I(5)), C("w", <<I(5)>>)>>)>>), C("asserta", <<C(":-", <<P(V(3)), C("w", <<V(3)>>)>>)>>),
+           C("retract", <<C(":-", <<P(I(0)), V(4)>>)>>), C("retractall", <<P(I(0))>>), C("asserta", <<C(":-", <<P(I(6)), C(";", <<C("w", <<I(6)>>), C("w", <<I(7)>>)>>)>>)>>) }
 \* an opener leaves a call / a retract / a clause/2 on p/1 open for backtracking; the probe w(X) shows each solution
 Open(o) == Conj2(o, C("w", <<X>>))
 Openers == { P(X), C("retract", <<P(X)>>), C("clause", <<P(X), A("true")>>) }
@@ -38,7 +40,8 @@ RECURSIVE Interleave(_)
 Interleave(steps) == IF steps = <<>> THEN <<>> ELSE <<Conj2(steps[1], A("fail")), Observe>> \o Interleave(Tail(steps))
 Query(steps) == Disj(Interleave(steps) \o << C("catch", <<C("findall", <<X, P(X), L>>), V(6), C("=", <<L, A("gone")>>)>> ) >>)
 
-Db0 == << [key |-> <<"p", 1>>, dyn |-> TRUE, cls |-> << [id |-> 1, head |-> P(I(1)), body |-> TrueA, nv |-> 0],
+Db0 == << [key |-> <<"p", 1>>, dyn |-> TRUE, cls |-> << [id |-> 10, head |-> P(I(0)), body |-> C(";", <<C("w", <<I(0)>>), C("w", <<I(9)>>)>>), nv |-> 0],   \* p(0) :- w(0) ; w(9).  (ONE clause)
+                                                        [id |-> 1, head |-> P(I(1)), body |-> TrueA, nv |-> 0],
                                                         [id |-> 2, head |-> P(I(2)), body |-> TrueA, nv |-> 0],
                                                         [id |-> 3, head |-> P(C("f", <<V(1)>>)), body |-> TrueA, nv |-> 1],
                                                         [id |-> 4, head |-> P(I(2)), body |-> TrueA, nv |-> 0],
